@@ -199,6 +199,17 @@ def shrink(case):
 
 
 def generate(rnd, tier, scale):
+    for _ in range(int((20 if tier == "quick" else 200) * scale)):
+        # pools whose totals are far beyond 2**53 (the proved model is the judge): every count is still exact
+        r = rnd.random()
+        if r < 0.6:
+            faces = rnd.choice([6, 6, 20, 10])
+            h = [["i:%d" % (i + 1), 1] for i in range(faces)]
+            dice = [h] * {6: rnd.randint(21, 23), 10: rnd.randint(16, 17), 20: 13}[faces]  # totals just beyond 2**53
+        else:
+            h = [["i:%d" % (i + 1), rnd.choice([10**6 + 1, 999983, 10**6 + 3, 7])] for i in range(rnd.randint(2, 4))]
+            dice = [h] * rnd.randint(3, 5)
+        yield dict(k="appear", dice=dice, which=[], o=rnd.choice([o for o, _ in h]))
     n_cases = int((900 if tier == "quick" else 8000) * scale)
     for _ in range(n_cases):
         r = rnd.random()
